@@ -41,12 +41,11 @@ def selection_post(N, isn0, pv0, res, new, out_of, dv_of):
     if res is None:
         return [("None only if every decoder rejects the payload", allrej),
                 ("previous_success_decoder unchanged by a payload nobody accepts", z3.And(new_isn == isn0, z3.Implies(z3.Not(isn0), new_val == pv0)))]
-    cases = []
-    for j in range(N):
-        sel = [z3.And(start == s0, out_of((s0 + j) % N) == 0, *[out_of((s0 + i) % N) != 0 for i in range(j)], to_int(res) == dv_of((s0 + j) % N), z3.Not(new_isn), new_val == (s0 + j) % N) for s0 in range(N)]
-        cases.append(z3.Or(*sel))
-    return [("result is the dictionary of the first accepting decoder in cyclic order from the remembered one, and that decoder is remembered", z3.Or(*cases)),
-            ("the most recently successful decoder wins whenever it accepts", z3.And(*[z3.Implies(z3.And(z3.Not(isn0), pv0 == k, out_of(k) == 0), to_int(res) == dv_of(k)) for k in range(N)]))]
+    # taken from the statement: the result is that of *a* decoder that accepts the payload, and that decoder is the one remembered;
+    # the most recently successful decoder is used whenever it accepts (no particular try-order is demanded for the others)
+    some = z3.Or(*[z3.And(out_of(k) == 0, to_int(res) == dv_of(k), z3.Not(new_isn), new_val == k) for k in range(N)])
+    return [("result is the dictionary of a decoder that accepts the payload, and previous_success_decoder names that decoder", some),
+            ("the most recently successful decoder wins whenever it accepts", z3.And(*[z3.Implies(z3.And(z3.Not(isn0), pv0 == k, out_of(k) == 0), z3.And(to_int(res) == dv_of(k), new_val == k)) for k in range(N)]))]
 
 def autodecoder_obligations(eng):
     T = table(eng); N = len(T); install_decoders(eng, T)
